@@ -13,6 +13,29 @@ TB = ('Trusted base: Coq 8.16.1 kernel + vm_compute (no native_compute, no axiom
       'in the evidence, not by a proof about the Python source.')
 
 CLAIMS = {
+    'C01': dict(
+        level='proof',
+        technique='Coq proof (closure of validity under every transition function for all random outcomes, lifted by induction to compositions, histories and the environment step; membership predicates iff conformity) + extracted-model differential check',
+        text='Coq theorems (Props/C01.v): ss_contains / os_contains / as_contains accept exactly the conforming inputs; transition_closed: for every '
+             'built-in transition function, action and random outcome a valid state (conforming + well-formed + box contents declared, Floor declared) '
+             'gives Ok of a valid state -- no exception; chain_closed / history_closed by induction (all compositions, lengths, orders); reward_total, '
+             'termination_total under the documented preconditions; step_closed for functional_step with the debug flag on or off; step_rejects '
+             '(ValueError for every action outside the space); observation_in_space.  Reachability from the shipped resets is covered by C13 + this. '
+             'Tie: T2 on transitions (corpus, random spaces, exhaustive small grids), trajectories of all 21 shipped configurations and random '
+             'compositions, functional_step from arbitrary states of the space with every reward component, membership predicates on near misses.',
+        design='8/C01', note=TB + ' Rewards are generated as floats (the documented type); reward finiteness assumes |parameter| x (height+width) does not overflow.'),
+    'C04': dict(
+        level='proof',
+        technique='Coq proof (machine invariant "the memoised observation belongs to the current state" over all operation sequences and outcomes; refinement of the stateful trajectory to functional threading) + operation-sequence differential check',
+        text='Coq theorems (Props/C04.v) about the InnerEnv machine (state, memoised observation): every successful stateful trajectory is a functional '
+             'threading with the same outputs and conversely; reset/step/fresh read are the functional operations on the current state; invariant over '
+             'all reachable machine states: a handed-out observation is an observation of the current state (never stale); memo cleared by reset and '
+             'step; repeated reads return the same observation and draw nothing; state/observation/step before the first reset raise RuntimeError. '
+             'The one-step equations hold by definition of the model; what ties them to the code is T2: operation sequences with arbitrary read '
+             'patterns, mid-episode resets and rejected actions on all shipped configurations (YAML factory) and random compositions, every output, '
+             'exception class and the draw log compared (a spurious recomputation of a stochastic observation changes the log); oracle threads states '
+             'by hand through the functional interface; OuterEnv representation equality checked on the code.',
+        design='8/C04', note=TB),
     'C05': dict(
         level='proof',
         technique='Coq proof (raw_view_spec by case analysis on the generated rotation table + index arithmetic, soundness for every observation function and random outcome) + extracted-model differential check',
